@@ -308,9 +308,17 @@ def wl_join(ctx, rng, case):
         # a join that is REFUSED (mismatched, non-empty argument) must leave the receiver as it was: the join proper follows
         w2, d2 = rng.choice([(width + 1, depth), (width, depth + 1), (max(1, (width * depth) // (depth + 1)), depth + 1)])
         bad = P.CountMinSketch(width=max(w2, 2), depth=d2, **bl.kw_hash(hf))
-        bad.add(rng.choice(keys), rng.choice([1, 5, 1700]))
+        if depth >= 2 and rng.random() < 0.5:
+            # ... or of the SAME shape with a hash strategy that agrees with the receiver's on the leading rows and differs further down
+            from probables.hashes import default_fnv_1a as _dflt
+
+            bad = P.CountMinSketch(width=width, depth=depth, hash_function=gen.DerivedHash(hf or _dflt, rng.choice(["first_only", "all_but_last"]), depth_at=depth))
+            ctx.count("refused_joins_with_a_strategy_that_agrees_on_the_leading_rows")
+        for kx in rng.sample(keys, min(3, len(keys))):
+            bad.add(kx, rng.choice([1, 5, 1700]))
         try:
             sA.join(bad)
+            ctx.count("mismatched_joins_that_were_accepted")
         except Exception:
             ctx.count("refused_joins_before_the_join")
     sA.join(sB)
